@@ -28,4 +28,38 @@ CHECKS = {
     "C18": _bp("All merge patterns of 2-3 contributors from 1-3 contexts with every cancellation subset are enumerated on the model (CtxRule, Isolation, NoCollateral); in the real processor tagged contexts, a recording tracer and a "
                "cancellation-honouring sink expose the export context, parent and links of every batch to BPObs.tla.", "7 C18"),
 }
-NOT_APPLICABLE = {}
+_OTAP_NOTE = ("Trusted: TLC, arrow-go's own IPC reader (independent wire observer), pdata, the harness' generic dump (every data-model field, no "
+              "normalisation in Go). Values come from finite alphabets and a seeded generator; stream histories are sampled, not enumerated.")
+def _otap(level, text, ref, technique="recorded producer/consumer histories validated by TLC against the black-box TLA+ specification OtapObs.tla (RoundTrip.tla oracle)"):
+    return dict(engine="otap", level=level, text=text, design_ref=ref, note=_OTAP_NOTE, technique=technique)
+CHECKS.update({
+    "C01": _otap("exploration", "Seeded adversarial stream histories of trace batches (optional columns appearing and disappearing, dictionaries reused, near-identical resources/scopes, boundary values, refused batches in the middle) "
+                 "are encoded and decoded by the real producer/consumer; TLC evaluates the RoundTrip.tla bag-with-ownership oracle with exactly the documented normalisations on every batch.", "7 C01-C03"),
+    "C02": _otap("exploration", "Same as C01 for logs: bodies of every AnyValue kind, the same scope under different resources, near-identical resources; RoundTrip.tla evaluated by TLC on every batch of every history.", "7 C01-C03"),
+    "C03": _otap("exploration", "Same as C01 for metrics: all five types and typeless metrics, zero counts, all-zero bucket lists, zero offsets, present-but-zero sum/min/max, exemplars with and without attributes; "
+                 "data points and exemplars compared as bags, bucket lists and quantiles as sequences, by TLC.", "7 C01-C03"),
+    "C04": _otap("exploration", "A sample (quick) or the full product (thorough) of the public producer options x schema-evolution histories, plus cardinality ramps crossing 255 / 65,535 / the configured limit in the overflow and reset regimes, "
+                 "all decoded by a default consumer and judged by the RoundTrip.tla oracle.", "7 C04"),
+    "C07": _otap("fault_enumeration", "The payload-level fault alphabet (relabel, drop, duplicate, swap, empty, unknown / retired schema id) is enumerated over positions x valid prefixes (0-3 batches) x optional follow-up batches for all three signals and applied to real batches; "
+                 "OtapObs.tla judges no-panic, no success-while-discarding-the-main-record, and complete decoding of well-formed batches on healthy streams.", "7 C07"),
+    "C08": _otap("exploration", "Unguarded seeded inputs (invalid UTF-8, huge timestamps, deep nesting), sparse first batches (columns introduced with only zeros), 65,535/65,536/65,537-parent batches for every id-bearing table as first and later batches, and dictionary regimes under every option; "
+                 "every encode outcome (ok / error / panic) is an event judged by OtapObs.tla.", "7 C08"),
+    "C12": _otap("exploration", "Every payload of every emitted batch is walked with arrow-go's MessageReader and each sub-stream re-decoded from scratch by an independent ipc.Reader; OtapObs.tla (Framing clauses) checks batch ids, main-first, one payload per type, non-empty related payloads, "
+                 "schema-id stability / no reuse after retirement, IPC continuation shape and independent decodability, on interleaved signals, schema changes, dictionary resets, zstd on/off.", "7 C12"),
+    "C13": _otap("exploration", "Unbounded-cardinality columns are fed for many batches under every dictionary limit option and reset threshold (overflow, reset and slow-crossing regimes); the sizes of the dictionaries an independent Arrow reader holds after each payload "
+                 "are compared by OtapObs.tla with the configured limit and with what the index type can address.", "7 C13"),
+    "C14": _otap("exploration", "The same recorded stream is fed to consumers with a ladder of limits from 16 B to 70 MiB (a consumer is retired at its first refusal); OtapObs.tla checks no panic, every refusal recognisable as the memory-limit error, reported in-use <= limit (recording MeterProvider), "
+                 "monotonicity in the limit, and equality (RoundTrip oracle) of everything decoded under different limits.", "7 C14"),
+    "C15": _otap("exploration", "Every producer runs on a CheckedAllocator; histories with schema updates, dictionary overflow / reset / rebuild, mixed signals, re-sent inputs and encode errors in the middle; OtapObs.tla requires balance 0 after Close and byte-identical input before/after every encode.", "7 C15"),
+})
+ENGINES.append({"name": "otap", "path": "spec/otap + harness/otap + lib/otap*.py",
+                "serves_properties": ["C01", "C02", "C03", "C04", "C07", "C08", "C12", "C13", "C14", "C15"],
+                "kind_free_text": "black-box TLA+ monitor OtapObs.tla + RoundTrip.tla oracle run by TLC over histories recorded from the real producer/consumer; independent arrow-go reader on the wire"})
+ENGINES.append({"name": "obf", "path": "spec/obf + harness/obf + lib/obf_check.py", "serves_properties": ["C17"],
+                "kind_free_text": "Obfuscation.tla enumerated exhaustively by TLC (abstract trees x modes), every case concretised at every attribute site of all three signals and run through the real processor; ObfObs.tla monitor run by TLC"})
+CHECKS["C17"] = dict(engine="obf", level="exploration", design_ref="7 C17",
+    text="TLC enumerates all trees of the abstract attribute grammar (depth <= 2, both modes) on Obfuscation.tla with its invariants and mutant switches; each case is placed at every attribute site of traces, logs and metrics and run through the real processor, "
+         "several calls per instance; ObfObs.tla judges shape, unchanged numbers/booleans/untargeted values, length preservation, and functional / injective substitution across the whole life of an instance.",
+    note="Trusted: TLC, pdata, the harness' dump. Injectivity of the Feistel cipher is only judged on the strings that occur; keys and name-like strings are accepted unchanged or consistently substituted (the statement does not pin them down).",
+    technique="TLA+ spec enumerated by TLC (one implementation test per abstract case) + recorded calls validated by TLC against ObfObs.tla")
+NOT_APPLICABLE = {"C16": "check not built yet (planned: concurrent vs. alone digests under -race; DESIGN.md section 7 C16)"}
